@@ -13,7 +13,7 @@ FILE_PROPS = {
     'openfilter/filter_runtime/filter.py': ['C03', 'C08', 'C12', 'C15', 'C18'],
     'openfilter/filter_runtime/frame.py': ['C09', 'C10'],
     'openfilter/filter_runtime/rolllog.py': ['C13', 'C14'],
-    'openfilter/filter_runtime/utils.py': ['C15'],
+    'openfilter/filter_runtime/utils.py': ['C15', 'C08'],
     'openfilter/filter_runtime/filters/util.py': ['C17'],
     'openfilter/filter_runtime/filters/video_in.py': ['C15', 'C17'],
     'openfilter/observability/bridge.py': ['C16'],
